@@ -24,7 +24,8 @@ LEAN_MODULES = ["Proofs.C10", "Proofs.C10.Accrual", "Proofs.C10.Debt", "Proofs.C
 DRIVERS = ["driver_aave"]
 RULE = ("index paths: 1-120 bars, 27-digit indices growing by 0-3 % per bar (or exactly representable ones), 2-4 tokens; operations: supply / "
         "withdraw / borrow / repay(cash|collateral) with amounts that are fractions of the balance, the exact balance, None, and split pairs "
-        "(a, b) versus (a+b); bucket = (check, operation, model outcome, argument class, number of bars since the position was opened)")
+        "(a, b) versus (a+b); quiet bars (parts of the row, or everything but one price, repeat the previous bar), the same token supplied and borrowed, "
+        "three or four borrows of one token inside one bar with cached views read in between; bucket = (check, operation, model outcome, argument class, number of bars since the position was opened)")
 TRUSTED = ["theorems are for exact rational arithmetic; the envelope (balances <= 1e12 tokens, <= 1e4 operations) keeps the accumulated "
            "35-digit rounding below 1e-18, which this run measures on every step (exact_vs_impl_max_rel_dev)"]
 ASSUMPTIONS = ["indices are positive and non-decreasing; balances stay below 1e12 tokens",
@@ -153,7 +154,7 @@ def split_merge(ctx: Ctx, rng, m, b, env, actions):
     """op(a+b) on one copy of the state, op(a); op(b) on another: positions must agree within 1e-18"""
     toks = env["tokens"]
     st = A.dump_state(m, b, actions, len(actions))
-    kind = rng.choice(["supply", "withdraw", "borrow", "repay"])
+    kind = rng.choice(["supply", "withdraw", "borrow", "repay", "repay", "repayColl"])
     sup = [k.name for k in m._supplies]
     bor = [k.name for k in m._borrows]
     if kind == "supply":
@@ -184,13 +185,27 @@ def split_merge(ctx: Ctx, rng, m, b, env, actions):
             return
         total = ref * A.dec_digits(rng, 0.05, 0.8, 6)
         mk = lambda x: {"kind": "borrow", "tok": t, "amount": fmt(x)}
+    elif kind == "repayColl":
+        # repay out of a collateral supply (C10_repay_collateral_split); sometimes more than the collateral holds, so that the cap
+        # ("contract will change payback amount") binds in the one-call run and in the second call of the split run
+        colls = [x for x in sup if m._supplies[A.token(x)].collateral]
+        if not bor or not colls:
+            return
+        t, ct = rng.choice(bor), rng.choice(colls)
+        if env["price"][t] == 0 or env["price"][ct] == 0:
+            return
+        debt = m._borrows[A.token(t)].base_amount * env["status"][t]["varIdx"]
+        cval = m._supplies[A.token(ct)].base_amount * env["status"][ct]["liqIdx"] * env["price"][ct] / env["price"][t]
+        total = min(debt, cval * (D("1.3") if rng.random() < 0.3 else 1)) * A.dec_digits(rng, 0.05, 0.95, 6)
+        mk = lambda x: {"kind": "repay", "tok": t, "amount": fmt(x), "withColl": True, "collTok": ct}
     else:
         c = [t for t in bor if A.token(t) in b._assets]
         if not c:
             return
         t = rng.choice(c)
         debt = m._borrows[A.token(t)].base_amount * env["status"][t]["varIdx"]
-        total = min(debt, b._assets[A.token(t)].balance) * A.dec_digits(rng, 0.05, 0.9, 6)
+        # sometimes the whole debt (the entry disappears in both runs), or nearly everything the wallet holds (Asset.sub's dust rule)
+        total = min(debt, b._assets[A.token(t)].balance) * (A.dec_digits(rng, 0.05, 0.9, 6) if rng.random() < 0.8 else D(rng.choice(["1", "0.999999"])))
         mk = lambda x: {"kind": "repay", "tok": t, "amount": fmt(x), "withColl": False, "collTok": None}
     if total <= 0:
         return
@@ -214,8 +229,17 @@ def split_merge(ctx: Ctx, rng, m, b, env, actions):
         for k in set(d1) | set(d2):
             x, y = d1.get(k, F(0)), d2.get(k, F(0))
             ctx.dev(x, y)
-            if abs(x - y) > TOL * max(1, abs(x) / 10 ** 12):
+            # an entry within rounding distance of the MIN_TOKEN_VALUE clamp may be deleted in one run and kept in the other
+            if abs(x - y) > TOL * max(1, abs(x) / 10 ** 12) + (2 * MIN_TOKEN if min(x, y) == 0 else 0):
                 ctx.violate(f"split:{kind}:{side}", f"{kind} of {total} in one call vs ({a}, {rest}): scaled {side}[{k}] {float(x)!r} vs {float(y)!r}", case)
+    # the wallet moved by the same total (C10_repay_split / C10_repay_collateral_split: equal, or one run snapped to 0 inside Asset.sub's 1e-5 dust)
+    w0 = {k: F(D(v)) for k, v in st["wallet"]}
+    w1 = {k: F(D(v)) for k, v in s1["wallet"]}
+    w2 = {k: F(D(v)) for k, v in s2["wallet"]}
+    for k in set(w1) | set(w2):
+        x, y, z = w1.get(k, F(0)), w2.get(k, F(0)), w0.get(k, F(0))
+        if abs(x - y) > F(1, 10 ** 30) * max(1, abs(z)) and not (min(x, y) == 0 and abs(x - y) < F(1, 10 ** 5) * abs(z) * (1 + F(1, 10 ** 9))):
+            ctx.violate(f"split:{kind}:wallet", f"{kind} of {total} in one call vs ({a}, {rest}): wallet[{k}] {float(x)!r} vs {float(y)!r} (was {float(z)!r})", case)
 
 
 def run_sequence(ctx: Ctx, rng, nbars, reqs, meta, exact_env):
@@ -225,15 +249,38 @@ def run_sequence(ctx: Ctx, rng, nbars, reqs, meta, exact_env):
     led = Ledger()
     bar = 0
     steps = 0
+    pending = []        # a scripted run of operations inside the current bar
+    borrows_in_bar = {}
     while bar < nbars and steps < 400:
         steps += 1
         r = rng.random()
         env_next = None
-        if r < 0.45:
+        if pending:
+            op = pending.pop(0)
+        elif r < 0.45:
             env_next = A.next_env(rng, env)
             op = {"kind": "newBar"}
+            borrows_in_bar = {}
         elif r < 0.5:
             split_merge(ctx, rng, m, b, env, actions)
+            continue
+        elif r < 0.54 and any(v.collateral for v in m._supplies.values()):
+            # three or four borrows of ONE token inside one bar, the listing / value views read in between (they fill the market's caches:
+            # the next borrow must still see the debt the previous one added), then the position is judged by the ledger as always
+            cands = [t for t in env["tokens"] if env["risk"][t]["canBorrow"]]
+            if not cands:
+                continue
+            t3 = rng.choice([t for t in cands if A.token(t) in m._supplies] or cands) if rng.random() < 0.4 else rng.choice(cands)
+            try:
+                ref = A.clone_market(m, False).get_max_borrow_amount(A.token(t3))
+            except Exception:  # noqa: BLE001
+                continue
+            if not ref.is_finite() or ref <= 0:
+                continue
+            k = rng.choice([3, 3, 4])
+            for _ in range(k):
+                pending.append({"kind": "borrow", "tok": t3, "amount": fmt((ref * A.dec_digits(rng, 0.05, 0.28, 4)).normalize())})
+                pending.append({"kind": "read", "view": rng.choice(["borrows", "borrowsValue", "totalBorrowsValue", "healthFactor", "marketBalance", "ltv"])})
             continue
         else:
             op = A.gen_op(rng, m, b, env, malformed=0.03)
@@ -276,6 +323,12 @@ def run_sequence(ctx: Ctx, rng, nbars, reqs, meta, exact_env):
                     if op.get("withColl"):
                         ct = op.get("collTok") or t
                         led.sub("sup", ct, paid * F(env["price"][t]) / F(env["price"][ct]), env["status"][ct]["liqIdx"])
+        if op["kind"] == "borrow" and outcome == "ok":
+            borrows_in_bar[t] = borrows_in_bar.get(t, 0) + 1
+            if borrows_in_bar[t] == 3:
+                ctx.count("feature:three-borrows-of-one-token-in-one-bar")
+        for ft in A.features(m, env):
+            ctx.count("feature:" + ft)
         check_ledger(ctx, m, env, led, bar, case, f"after {op}")
         if op["kind"] != "newBar":
             reqs.append(A.step_request(env_used, s0, op))
@@ -332,9 +385,17 @@ def replay(ctx: Ctx, case) -> bool:
             d1 = {k: F(D(v["base"])) for k, v in res[0][side]}
             d2 = {k: F(D(v["base"])) for k, v in res[1][side]}
             for k in set(d1) | set(d2):
-                if abs(d1.get(k, F(0)) - d2.get(k, F(0))) > TOL * max(1, abs(d1.get(k, F(0))) / 10 ** 12):
+                if abs(d1.get(k, F(0)) - d2.get(k, F(0))) > TOL * max(1, abs(d1.get(k, F(0))) / 10 ** 12) + (2 * MIN_TOKEN if min(d1.get(k, F(0)), d2.get(k, F(0))) == 0 else 0):
                     print(f"   {side}[{k}]: {d1.get(k)} vs {d2.get(k)}")
                     ok = False
+        w0 = {k: F(D(v)) for k, v in case["state"]["wallet"]}
+        w1 = {k: F(D(v)) for k, v in res[0]["wallet"]}
+        w2 = {k: F(D(v)) for k, v in res[1]["wallet"]}
+        for k in set(w1) | set(w2):
+            x, y, z = w1.get(k, F(0)), w2.get(k, F(0)), w0.get(k, F(0))
+            if abs(x - y) > F(1, 10 ** 30) * max(1, abs(z)) and not (min(x, y) == 0 and abs(x - y) < F(1, 10 ** 5) * abs(z) * (1 + F(1, 10 ** 9))):
+                print(f"   wallet[{k}]: {x} vs {y}")
+                ok = False
         return ok
     m, b, actions = A.new_market(env)
     A.load_state(m, b, case["state"])
